@@ -124,6 +124,44 @@ class AffineTransform_from_affine_map:
         check("canary: offset is zero", tolist(ret.b) == [0] * sh["rows"])
 
 
+def mk_nonlinear_map(sym, kind, cols):
+    """maps with a floordiv / mod nested inside an otherwise linear expression"""
+    d0 = AffineDimExpr(0)
+    c = sym.int("c", 2, 9)
+    if kind == "nested_floordiv":
+        e = d0 + d0 // c
+    elif kind == "nested_mod_sum":
+        e = (d0 % c) + AffineDimExpr(cols - 1)
+    elif kind == "floordiv_times":
+        e = (d0 // c) * c
+    elif kind == "top_mod":
+        e = d0 % c
+    else:
+        e = (d0 + 1) // c
+    return AffineMap(cols, 0, (e,))
+
+
+@contract
+class AffineTransform_from_affine_map_nonlinear:
+    """a map that is not a pure linear transformation must be refused (ValueError) - never silently linearised"""
+    target = "snaxc.ir.dart.affine_transform.AffineTransform.from_affine_map"
+    shapes = [dict(kind=k, cols=c) for k in ("nested_floordiv", "nested_mod_sum", "floordiv_times", "top_mod", "top_floordiv") for c in (1, 2)]
+    may_not_return = True
+
+    def args(sh, sym):
+        return [mk_nonlinear_map(sym, sh["kind"], sh["cols"]), [sym.int(f"x{j}", 0) for j in range(sh["cols"])]]
+
+    def run(sh, a):
+        return AffineTransform.from_affine_map(a[0])
+
+    def raises(sh, a, exc):
+        check("only ValueError may be raised for a non-linear map", exc == "ValueError")
+
+    def ensures(sh, a, ret):
+        m, x = a
+        check("if a matrix form is returned it evaluates like the map", lin(tolist(ret.A), tolist(ret.b), x) == list(m.eval(x, [])))
+
+
 @contract
 class AffineTransform_to_affine_map:
     target = "snaxc.ir.dart.affine_transform.AffineTransform.to_affine_map"
